@@ -2,6 +2,7 @@ package requireddefinitions
 
 import (
 	"reflect"
+	"text/scanner"
 
 	"go.einride.tech/can/pkg/dbc"
 	"go.einride.tech/can/pkg/dbc/analysis"
@@ -29,8 +30,12 @@ func run(pass *analysis.Pass) error {
 	}
 	for _, requiredDef := range requiredDefinitions() {
 		if counts[reflect.TypeOf(requiredDef)] == 0 {
-			// we have no definition to return, so return the first
-			pass.Reportf(pass.File.Defs[0].Position(), "missing required definition(s)")
+			// we have no definition to return, so return the first (or 1:1 in a file without definitions)
+			pos := scanner.Position{Filename: pass.File.Name, Line: 1, Column: 1}
+			if len(pass.File.Defs) > 0 {
+				pos = pass.File.Defs[0].Position()
+			}
+			pass.Reportf(pos, "missing required definition(s)")
 			break
 		}
 	}
